@@ -54,11 +54,14 @@ func bootEngine() string {
 		config.InitializeTestingConfig(dir + "/")
 		config.SetNewQueryPipelineEnabled(true)
 		limit.InitMemoryLimiter()
-		if err := query.InitQueryNode(serverutils.GetMyIds, serverutils.ExtractKibanaRequests); err != nil {
+		// the order of cmd/startup: InitVTable, the writer node, then the query node.  (The other order let
+		// the query node's metadata-sync goroutine read vtable's base file name while InitVTable was still
+		// writing it: a torn read and a crash at worker start about once in 450 workers.)
+		if err := vtable.InitVTable(serverutils.GetMyIds); err != nil {
 			panic(err)
 		}
 		writer.InitWriterNode()
-		if err := vtable.InitVTable(serverutils.GetMyIds); err != nil {
+		if err := query.InitQueryNode(serverutils.GetMyIds, serverutils.ExtractKibanaRequests); err != nil {
 			panic(err)
 		}
 		go query.PullQueriesToRun(context.Background())
